@@ -41,7 +41,7 @@ theorem runOps_ok_core (faulty : Oracle) (ops : List MicroOp) (l : Local) (b b' 
     | store =>
       simp only [runOps] at hok ⊢
       exact ih _ _ _ (by simp [hc]) hok
-    | tryBegin ca =>
+    | tryBegin ca ex =>
       simp only [runOps] at hok ⊢
       rw [hc]
       exact ih _ _ _ hc (by rw [← hc]; exact hok)
@@ -63,7 +63,8 @@ theorem runOps_ok_core (faulty : Oracle) (ops : List MicroOp) (l : Local) (b b' 
 def ScanInv (s : Scan) (l : Local) (c c0 : Core) : Prop :=
   s.dirty = false →
     c.step = c0.step ∧ c.stored = c0.stored ∧
-    (if s.inTry then l.snapshot = some c0.net ∧ l.catchAll = true ∧ (s.prot = false → c.net = c0.net)
+    (if s.inTry then l.snapshot = some c0.net ∧ (l.catchAll = true ∧ l.exact = true) ∧
+        (s.prot = false → c.net = c0.net)
      else l.snapshot = none ∧ c.net = c0.net)
 
 theorem runOps_fail_core (faulty : Oracle) (ops : List MicroOp) (s : Scan) (l : Local)
@@ -84,7 +85,7 @@ theorem runOps_fail_core (faulty : Oracle) (ops : List MicroOp) (s : Scan) (l : 
         obtain ⟨h1, h2, h3⟩ := h
         by_cases ht : s.inTry = true
         · simp only [ht, if_true] at h3
-          rw [h3.1, h3.2.1]
+          rw [h3.1, h3.2.1.1, h3.2.1.2]
           cases hb : b.core
           cases c0
           simp_all
@@ -115,7 +116,7 @@ theorem runOps_fail_core (faulty : Oracle) (ops : List MicroOp) (s : Scan) (l : 
         exact ⟨h.1, h.2.1, h.2.2.1, h.2.2.2.1, by intro hp; simp at hp⟩
       · simp only [ht] at hs
         exact ih _ _ _ hs (by intro h; simp at h) hfail
-    | tryBegin ca =>
+    | tryBegin ca ex =>
       simp only [scanOps, Bool.and_eq_true, Bool.not_eq_true'] at hs
       obtain ⟨⟨ht, hca⟩, hrest⟩ := hs
       simp only [runOps] at hfail ⊢
